@@ -1173,20 +1173,20 @@ package fs
 //@   ensures[C01] confined(path) ==> confined(p) @confined-kept
 
 //@ func tryGetRedumpKey$1 params(s)
-//@   tags C11,C04
+//@   tags C11,C04,C20
 //@   ensures result == (lowered(s) == "ps3iso") @def
 
 //@ func tryGetRedumpKey results(key, err)
-//@   tags C11,C01,C13,C04
+//@   tags C11,C01,C13,C04,C20
 //@   requires fsys != nil && confined(requestedPath)
 //@   modifies fopen, fpos, iofaults
 //@   let adjacent = trimsuffix(requestedPath, fileext(requestedPath)) ++ ".dkey"
 //@   ensures iofaults >= old(iofaults)
 //@   ensures[C13] forall g {fopen[g]} :: fopen[g] ==> old(fopen[g]) @key-files-closed
-//@   ensures[C11] lowered(fileext(requestedPath)) != ".iso" ==> err == afero.ErrFileNotFound && fopen == old(fopen) && iofaults == old(iofaults) @only-iso
+//@   ensures[C11,C20] lowered(fileext(requestedPath)) != ".iso" ==> err == afero.ErrFileNotFound && fopen == old(fopen) && iofaults == old(iofaults) @only-iso
 //@   ensures[C11] err == nil ==> len(key) == 16 @key-size
 //@   ensures[C13] keyreadfail > old(keyreadfail) ==> err != nil && err != afero.ErrFileNotFound @a-failed-key-read-is-reported-and-never-taken-for-no-key
-//@   ensures[C11] err == nil && pexists(adjacent) && iofaults == old(iofaults) ==> forall q :: 0 <= q && q < 16 ==> key[q] == hexkey(pcontent(adjacent))[q] @adjacent-key-wins
+//@   ensures[C11,C20] err == nil && pexists(adjacent) && iofaults == old(iofaults) ==> forall q :: 0 <= q && q < 16 ==> key[q] == hexkey(pcontent(adjacent))[q] @adjacent-key-wins
 //@   ensures forall g {fpos[g]} :: old(allocated(g)) ==> fpos[g] == old(fpos[g])
 
 
